@@ -35,6 +35,8 @@ def verify_function(repo, registry, qualname, only_variant=None):
     m, fnode, cls = repo.find_function(qualname)
     rep.source_lines = (m.path, fnode.lineno, fnode.end_lineno)
     ptypes = c.param_types()
+    gtypes = [(f"global:{g}", c.type_of(tx)) for g, tx in c.globals_used]
+    ptypes = ptypes + gtypes
     alts = [t.expand() for _, t in ptypes]
     short = qualname.replace("pyrepseq.", "")
     combos = list(itertools.product(*alts)) if alts else [()]
@@ -53,6 +55,12 @@ def verify_function(repo, registry, qualname, only_variant=None):
             # symbolic inputs
             bound = {}
             for (pname, _), ty in zip(ptypes, combo):
+                if pname.startswith("global:"):
+                    gname = pname.split(":", 1)[1]
+                    v = ty.fresh(gname, ctx)
+                    interp.global_state[(m.name, gname)] = v
+                    ctx.inputs[pname] = (ty, v)
+                    continue
                 v = ty.fresh(pname, ctx)
                 bound[pname] = v
                 ctx.inputs[pname] = (ty, v)
@@ -192,7 +200,8 @@ def lemma_obligations(repo, registry, qualname):
     c = registry.get(qualname)
     if not c.lemmas:
         return []
-    ptypes = c.param_types()
+    m_, _f, _c = repo.find_function(qualname)
+    ptypes = c.param_types() + [(f"global:{g}", c.type_of(tx)) for g, tx in c.globals_used]
     alts = [t.expand() for _, t in ptypes]
     short = qualname.replace("pyrepseq.", "")
     out = []
@@ -207,6 +216,9 @@ def lemma_obligations(repo, registry, qualname):
             try:
                 bound = {}
                 for (pname, _), ty in zip(ptypes, combo):
+                    if pname.startswith("global:"):
+                        interp.global_state[(m_.name, pname.split(":", 1)[1])] = ty.fresh(pname.split(":", 1)[1], ctx)
+                        continue
                     bound[pname] = ty.fresh(pname, ctx)
                     ctx.inputs[pname] = (ty, bound[pname])
                 env = c.spec_env(interp, bound)
@@ -232,7 +244,7 @@ def reachability(repo, registry, qualname):
     """Non-vacuity: the conjunction of the pre-conditions must be satisfiable (per variant)."""
     c = registry.get(qualname)
     m, fnode, cls = repo.find_function(qualname)
-    ptypes = c.param_types()
+    ptypes = c.param_types() + [(f"global:{g}", c.type_of(tx)) for g, tx in c.globals_used]
     alts = [t.expand() for _, t in ptypes]
     out = []
     for vi, combo in enumerate(itertools.product(*alts) if alts else [()]):
@@ -243,6 +255,9 @@ def reachability(repo, registry, qualname):
         bound = {}
         try:
             for (pname, _), ty in zip(ptypes, combo):
+                if pname.startswith("global:"):
+                    interp.global_state[(m.name, pname.split(":", 1)[1])] = ty.fresh(pname.split(":", 1)[1], ctx)
+                    continue
                 v = ty.fresh(pname, ctx)
                 bound[pname] = v
                 ctx.inputs[pname] = (ty, v)
